@@ -200,6 +200,12 @@ impl Ctx {
             s.insert(item.to_string());
         }
     }
+    pub fn has_in_set(&self, set: &str, item: &str) -> bool {
+        self.sets.get(set).map(|s| s.contains(item)).unwrap_or(false)
+    }
+    pub fn set_len(&self, set: &str) -> usize {
+        self.sets.get(set).map(|s| s.len()).unwrap_or(0)
+    }
     /// record a distinct non-trivial case fingerprint
     pub fn nontrivial(&mut self, fp: u64) {
         if self.fps.len() < self.fp_cap {
